@@ -28,7 +28,8 @@ namespace OP2Utility::Stream
 			iosOpenMode |= std::ios_base::trunc;
 		}
 		if ((openMode & OpenMode::Append) != 0) {
-			iosOpenMode |= std::ios_base::ate;
+			// ate alone still truncates (out without in or app); app preserves content, ate reports the end position
+			iosOpenMode |= std::ios_base::app | std::ios_base::ate;
 		}
 		return iosOpenMode;
 	}
